@@ -251,3 +251,7 @@ TEXT["C16"].update(
 TEXT["C02"].update(
     level=TEXT["C02"]["level"] + " apply-range: exactly start ..= end, both ends included, in order, nothing when start > end, no overflow at 255.255.255.255 (R9 slice apply_range_hosts, rule R21).",
     note=TEXT["C02"]["note"].replace("NOT decided: apply-range (inclusive range loop: no vstd ghost-iterator spec for RangeInclusive; yaml containers block Kani); YAML -> values. ", "NOT decided: YAML -> values. "))
+
+TEXT["C19"].update(
+    level=TEXT["C19"]["level"] + " Prefixes: str_prefix / str_prefix4 / str_prefix6 admit a prefix only with a length that fits its family (<= 32 / <= 128) -- the precondition of the Kani-proved consumers (R9 slices of the three closure bodies).",
+    note=TEXT["C19"]["note"].replace("`str_prefix*`, ", "").replace("str_prefix*, ", ""))
